@@ -276,6 +276,12 @@ func streamDetect(c *corrOut, g *inputGen, r *rng, n int, thorough bool) {
 			flag = "1"
 		}
 		out := implDetect(b, more)
+		if more && c.scope != "" && !strings.Contains(c.scope, "C15") {
+			// what is held back when more data can follow is C15's subject
+			old := c.scope
+			c.scope = old + " C15"
+			defer func() { c.scope = old }()
+		}
 		c.emit(flag+" "+hexOf(b), out, detectBucket(out))
 		// property C09, directly on the implementation: no panic on non-empty
 		// input, width within bounds, zero width only to ask for more data.
@@ -329,7 +335,7 @@ func streamDetect(c *corrOut, g *inputGen, r *rng, n int, thorough bool) {
 		}
 		emit(b, false)
 		if auto {
-			c.scope = "C09" // (with canHaveMoreData the answer may be "need more": totality only)
+			c.scope = "C09 C15" // (with canHaveMoreData the answer may be "need more": totality, and what is held back at the end of a full read)
 		}
 		emit(b, true)
 		if auto {
@@ -593,6 +599,8 @@ func streamReader(c *corrOut, g *inputGen, r *rng, n int, thorough bool) {
 		evSGR(35, 10, 2, false), evSGR(0, 1000, 999, true), evX10(32, 33, 33), evX10(96, 255, 40),
 		g.evPaste([]byte("hello\x1b[Aworld")), evCtrl('\r', false), evCtrl(9, true), g.evSpace(true), evNUL(true),
 		evUnknownCSI([]byte("12;3"), []byte("$"), 'y'), g.evAltRune('x'), g.evAltEsc(),
+		// the alt modifier in front of a multi-byte character (the ESC and a part of the character before the boundary)
+		g.evAltRune(0xe9), g.evAltRune(0x4e16), g.evAltRune(0x1F600), evCtrl(0x7f, true),
 		// LONG reports and sequences (15 and more bytes pending at the boundary): four- and ten-digit
 		// parameters, leading zeros, long parameter lists
 		evSGR(35, 1000, 1000, false), evSGR(64, 9999, 9999, true), evSGR(255, 12345, 54321, false),
@@ -619,6 +627,25 @@ func streamReader(c *corrOut, g *inputGen, r *rng, n int, thorough bool) {
 			if e.kind == "sgr" || e.kind == "x10" {
 				// also C11: a report embedded among other events decodes to its mouse message and consumes exactly its own bytes
 				g.checkExpectQuiet(c, "C11", "mouse report ("+e.kind+") embedded in a long stream is not decoded as one mouse message", fullReads(concatEvents(evs)), expectedOf(evs, kr))
+			}
+		}
+	}
+	// C08/C15: EVERY documented key, plain and behind the alt modifier, cut at every position by the end of a
+	// completely filled read (a run of characters before it, an arrow key and a character after it)
+	for i := range g.doc.Sequences {
+		for _, alt := range []bool{false, true} {
+			if alt && g.doc.Sequences[i].Alt {
+				continue
+			}
+			e := g.evDocKey(i, alt)
+			for cut := 1; cut < len(e.bytes); cut++ {
+				pad := make([]rune, 256-cut)
+				for j := range pad {
+					pad[j] = rune('a' + (j+i)%26)
+				}
+				evs := []event{g.evRunes(pad), e, g.evRunes([]rune{'q'})}
+				g.checkExpect(c, "C08", "documented key cut by the end of a completely filled read", fullReads(concatEvents(evs)), expectedOf(evs, kr))
+				g.checkExpectQuiet(c, "C15", "a documented key that straddles the read-buffer boundary does not decode like the same bytes in one piece", fullReads(concatEvents(evs)), expectedOf(evs, kr))
 			}
 		}
 	}
